@@ -175,6 +175,82 @@ Definition run_C10 (op : N) (a : list tree) : tree :=
   | _ => T [L 999]
   end.
 
+(* C10, op 1: RepositoryEditor::sign + write for a repository WITH delegated roles (ed_sign_tree).
+   [root, edit (as op 0), dkeys, children, keys, [len targets, digest targets, len snapshot, digest snapshot,
+    len timestamp, digest timestamp, [[len, digest] per delegated role, in the order of all_roles]]]
+   node: [hdr [name, keyids, threshold, [kind, patterns]], version, expires, entries [[raw name, len, digest]],
+          dkeys, children, signers]
+   -> [1, targets with the tree attached, snapshot, timestamp, [[file name, [4, document] | [3] | [2]]]] | [0] *)
+Definition entry_of_tree (e : tree) : tname * tinfo :=
+  let raw := t_bytes (t_nth e 0) in
+  ({| tn_raw := raw; tn_resolved := match clean_name raw with inr r => r | inl _ => raw end;
+      tn_hexdigest := t_bytes (t_nth e 3) |},
+   {| ti_len := t_N (t_nth e 1); ti_digest := t_N (t_nth e 2); ti_hex := [] |}).
+Fixpoint enode_of_tree (fuel : nat) (t : tree) : enode :=
+  match fuel with
+  | O => ENode (dhdr_of_tree (T [])) 0 0 [] [] [] []
+  | S f => ENode (dhdr_of_tree (t_nth t 0)) (t_N (t_nth t 1)) (Z_of_tree (t_nth t 2))
+                 (map entry_of_tree (t_list (t_nth t 3))) (t_Ns (t_nth t 4))
+                 (map (enode_of_tree f) (t_list (t_nth t 5))) (t_Ns (t_nth t 6))
+  end.
+Definition tree_of_pathset (ps : pathset) : tree :=
+  match ps with
+  | Paths l => T [L 0; T (map of_bytes l)]
+  | HashPrefixes l => T [L 1; T (map of_bytes l)]
+  end.
+Definition tree_of_hdr (h : dhdr) : tree :=
+  T [of_bytes (dh_name h); T (map L (dh_keyids h)); L (dh_threshold h); tree_of_pathset (dh_paths h)].
+Fixpoint tree_of_targets (t : targets) : tree :=
+  let 'Targets v e en hd dk roles sg := t in
+  T [L v; tree_of_Z e;
+     T (map (fun ni => T [of_bytes (tn_raw (fst ni)); L (ti_len (snd ni)); L (ti_digest (snd ni))]) en);
+     of_bool hd; T (map L dk);
+     T (map (fun hc => let '(h, c) := hc in
+                       T [tree_of_hdr h; match c with None => T [] | Some d => T [tree_of_targets d] end]) roles);
+     T (map tree_of_sig sg)].
+Fixpoint find_row (k : bytes) (rows : list (bytes * (N * N))) : N * N :=
+  match rows with
+  | [] => (0, 0)
+  | (k', v) :: r => if bytes_eqb k k' then v else find_row k r
+  end.
+Definition run_C10_tree (a : list tree) : tree :=
+  match a with
+  | [rt; ed; dk; chs; keys; tbl] =>
+      let r := root_of_tree rt in
+      let e := {| e_entries := map entry_of_tree (t_list (t_nth ed 0));
+                  e_tv := t_N (t_nth ed 1); e_sv := t_N (t_nth ed 2); e_tsv := t_N (t_nth ed 3);
+                  e_texp := Z_of_tree (t_nth ed 4); e_sexp := Z_of_tree (t_nth ed 5); e_tsexp := Z_of_tree (t_nth ed 6) |} in
+      let dkeys := t_Ns dk in
+      let ch := map (enode_of_tree 32) (t_list chs) in
+      let st := match signed_role r 2 (t_Ns keys) with Some s => s | None => [] end in
+      let fp := fun t => print_tree (tree_of_targets t) in
+      let rows := (fp (top_file_doc e dkeys ch st), (t_N (t_nth tbl 0), t_N (t_nth tbl 1)))
+                  :: combine (map (fun n => fp (en_file_doc n)) (all_roles ch))
+                             (map (fun x => (t_N (t_nth x 0), t_N (t_nth x 1))) (t_list (t_nth tbl 6))) in
+      let len_of := fun c => match c with CTargets t => fst (find_row (fp t) rows) | CSnap _ => t_N (t_nth tbl 2)
+                                     | CTs _ => t_N (t_nth tbl 4) | _ => 0 end in
+      let dig_of := fun c => match c with CTargets t => snd (find_row (fp t) rows) | CSnap _ => t_N (t_nth tbl 3)
+                                     | CTs _ => t_N (t_nth tbl 5) | _ => 0 end in
+      match ed_sign_tree len_of dig_of r e dkeys ch (t_Ns keys) with
+      | None => T [L 0]
+      | Some (tg, sn, ts, srv) =>
+          T [L 1; tree_of_targets tg;
+             T [L (sn_version sn); tree_of_Z (sn_expires sn); tree_of_metas (sn_meta sn); T (map tree_of_sig (sn_sigs sn))];
+             T [L (ts_version ts); tree_of_Z (ts_expires ts); tree_of_metas (ts_meta ts); T (map tree_of_sig (ts_sigs ts))];
+             T (map (fun x => T [of_bytes (fst x);
+                                 match snd x with
+                                 | Served f => match f_body f with
+                                               | CTargets t => T [L 4; tree_of_targets t]
+                                               | CSnap _ => T [L 3]
+                                               | CTs _ => T [L 2]
+                                               | _ => T [L 0]
+                                               end
+                                 | _ => T [L 0]
+                                 end]) srv)]
+      end
+  | _ => T [L 999]
+  end.
+
 Definition run_case (t : tree) : tree :=
   match t with
   | T (L p :: L op :: args) =>
@@ -184,7 +260,7 @@ Definition run_case (t : tree) : tree :=
       else if p =? 7 then run_C07 op args
       else if p =? 13 then run_C13 op args
       else if p =? 12 then run_C12 op args
-      else if p =? 10 then run_C10 op args
+      else if p =? 10 then (if op =? 1 then run_C10_tree args else run_C10 op args)
       else if p =? 17 then run_C17 op args
       else if p =? 6 then run_client op args
       else if p =? 20 then run_C20 op args
